@@ -130,6 +130,10 @@ SimRunClauses ==
      \o On("C03", C03_L(Cfg, Opts, fin.lg)) \o On("C04", C04_L(Cfg, Opts, fin.lg))
      \o On("C07", C07_L(Cfg, Opts, fin.lg)) \o On("C08", C08_L(Cfg, Opts, fin.lg))
      \o On("C10", C10_L(Cfg, Opts, fin.lg)) \o On("C14", C14_L(Cfg, Opts, fin.lg))
+     \o (IF "sub" \in DOMAIN Run.args
+         THEN On("C20", C20_Parent(Cfg, Opts, fin.lg, Run.args.sub, Run.args.expectSteps)
+                        \o << <<"C20.L.exact-rate", Run.obs.exactRate>> >>)
+         ELSE <<>>)
      \o (IF Len(Run.ev) = 0 THEN <<>> ELSE
          On("C08", LET spec == FoldedLogs(EmptyLogs(Cfg))
                   IN << <<"C08.L.live-time", fin.lg.time = Len(PerformedStates)>>,
@@ -156,9 +160,11 @@ CmpClauses ==
 
 RunClauses ==
   CmpClauses
-  \o << <<"X.exact", Run.final.inexact = <<>> >> >>
-  \o (IF Run.op \in {"sort", "rebuild", "snapshot"} THEN <<>> ELSE On("C08", C08_H(Cfg, Run)))
+  \o (IF Run.op \in {"sort", "report"} THEN <<>> ELSE << <<"X.exact", Run.final.inexact = <<>> >> >>)
+  \o (IF Run.op \in {"sort", "report", "rebuild", "snapshot", "subconfig"} THEN <<>> ELSE On("C08", C08_H(Cfg, Run)))
   \o (CASE Run.op = "sort" -> On("C11", C11_F(Cfg, Run)) \o << <<"L2.sort", C11_FConforms(Cfg, Run)>> >>
+        [] Run.op = "report" -> On("C19", C19_F(Run))
+        [] Run.op = "subconfig" -> On("C20", C20_Config(Run))
         [] Run.op = "simulate" /\ IsFreshSimulate -> SimRunClauses
         [] Run.op = "simulate" /\ ~IsFreshSimulate ->
              On("C05", C05_End(Cfg, Opts, Run.final.st, Run.ret))
